@@ -1,8 +1,10 @@
 // ---- environment of the slice `new_fast` (Transition::new_fast = Transition::one_cluster_per_maintenance) ----------
 // Included inside `pub mod tr { … }` after env/im_shim.vs and env/transition_spec.vs (both included as they are).
 // Everything `external_body` / `uninterp` / `axiom` in this file is an ASSUMPTION (listed in the header of
-// slices/new_fast.vs): A-iter (`vec.iter_mut().find(p)`, `SeqIter::enumerate`, `SeqIter::flat_map`), A-im (FromIterator of
-// im::HashMap).  The rest are open spec functions and proved lemmas.
+// slices/new_fast.vs): A-iter (`vec.iter_mut().find(p)`, `SeqIter::enumerate`, `SeqIter::flat_map`, `VCycleIter::viter`), A-im
+// (FromIterator of im::HashMap).  A-std (`sort_by_key` only rearranges) is the spec predicate `permutes`, a HYPOTHESIS of the
+// composition lemmas (the sorts are pinned plumbing, no verified code calls them).  The rest are open spec functions and
+// proved lemmas.
 
 /// a cluster under construction: its vehicles in rotation order and the running counter
 pub type Cluster = (Vec<VehicleIdx>, MaintenanceCounter);
